@@ -121,6 +121,10 @@ def apply(rib, op):
         rib.add_to_rib(route(P[op[1]], op[2]))
     elif op[0] == 'wd':
         rib.del_from_rib(route(P[op[1]], None))
+    elif op[0] == 'resend':
+        rib.resend(False)  # what `flush adj-rib out` (and a ROUTE-REFRESH from the peer) does
+    elif op[0] == 'clear':
+        rib.withdraw()  # `clear adj-rib out`
 
 
 def one_case(before_ops, cut, down_ops, per_iteration=25, after_ops=()):
@@ -164,8 +168,10 @@ def one_case(before_ops, cut, down_ops, per_iteration=25, after_ops=()):
     for op in list(before_ops) + list(down_ops) + list(after_ops):
         if op[0] == 'ann':
             model[op[1]] = op[2]
-        else:
+        elif op[0] == 'wd':
             model.pop(op[1], None)
+        elif op[0] == 'clear':
+            model = {}
     intended = {(1, 24, socket.inet_aton(P[k].split('/')[0])[:3]): ('192.0.2.1', med) for k, med in model.items()}
     want = reported(rib)
     got = s.table.table
@@ -183,7 +189,7 @@ def one_case(before_ops, cut, down_ops, per_iteration=25, after_ops=()):
     return None
 
 
-OPS = [('ann', 1, 10), ('ann', 1, 20), ('ann', 2, 5), ('wd', 1, None), ('wd', 0, None), ('ann', 0, 30)]
+OPS = [('ann', 1, 10), ('ann', 1, 20), ('ann', 2, 5), ('wd', 1, None), ('wd', 0, None), ('ann', 0, 30), ('resend',), ('clear',)]
 
 
 @bounded('C11', 'loss-at-every-cut')
@@ -202,6 +208,12 @@ def loss_at_every_cut(tier, seed):
         rnd.shuffle(cases)
         cases = cases[:400]
     work = [(before, cut, down, per) for before, cut, down in cases for per in (25, 1)]
+    # a refresh (flush adj-rib out / ROUTE-REFRESH) queued while the session is down, then a withdraw of what it holds:
+    # in the first window of the new session withdraws are not sent, so a stale copy in the refresh is announced for good
+    for down in ((('resend',), ('wd', 1, None)), (('resend',), ('wd', 0, None)), (('resend',), ('clear',)), (('resend',), ('wd', 1, None), ('ann', 1, 20)), (('wd', 1, None), ('resend',))):
+        for cut in (0, 2):
+            for per in (25, 1):
+                work.append(((('ann', 1, 10),), cut, down, per))
     # after the resynchronisation: a withdraw / an announce / a change, for both slice sizes and a few histories
     for after in ((('wd', 0, None),), (('ann', 1, 10), ('wd', 1, None)), (('ann', 2, 5),), (('wd', 0, None), ('ann', 0, 30))):
         for before in ((), (('ann', 1, 10),), (('ann', 1, 10), ('ann', 2, 5))):
@@ -224,7 +236,7 @@ def loss_at_every_cut(tier, seed):
         if len(samples) < 3 and len(before) == 2 and down:
             samples.append({'before': [list(o) for o in before], 'cut_after_messages': cut, 'while_down': [list(o) for o in down]})
     fails.sort(key=lambda f: len(str(f['input'])))
-    return {'evaluations': evals, 'distinct_nontrivial': len(distinct), 'bound': f'API histories of length <= {depth} over 6 operations (3 prefixes, attribute change, withdraw of an API route and of the configured route) x session loss after 0..n+1 sent messages x {25, 1} routes per loop iteration x <= {1 if tier == "quick" else 2} operations while down' + (' (sample of 700)' if tier == 'quick' else ''), 'rule': 'one case = (history before the loss, cut point, operations while down); distinct by value', 'samples': samples, 'failures': fails}
+    return {'evaluations': evals, 'distinct_nontrivial': len(distinct), 'bound': f'API histories of length <= {depth} over 8 operations (3 prefixes, attribute change, withdraw of an API route and of the configured route, flush adj-rib out, clear adj-rib out) x session loss after 0..n+1 sent messages x {25, 1} routes per loop iteration x <= {1 if tier == "quick" else 2} operations while down' + (' (sample of 700)' if tier == 'quick' else ''), 'rule': 'one case = (history before the loss, cut point, operations while down); distinct by value', 'samples': samples, 'failures': fails}
 
 
 @replayer('C11', 'loss-at-every-cut')
